@@ -95,7 +95,17 @@ def chunk_worker(job):
                 rec["fail"].append({**base, "kind": "interface-differs", "step": j, "op": prog["steps"][j]["op"]})
                 break
             if not progs.same_value(got, outs[0][j]):
-                rec["fail"].append({**base, "kind": progs.diff_kind(got, outs[0][j]), "step": j, "op": prog["steps"][j]["op"],
+                # the two exported models, or onnxruntime's graph optimiser?  (both models, optimisations disabled)
+                suffix = ""
+                try:
+                    sess0 = impl.session(m2, optimise=False)
+                    raw0 = dict(zip([o.name for o in sess0.get_outputs()], sess0.run(None, feeds)))
+                    _, outs0 = progs.build_and_run(prog, S, arrs, res, [vals], optimise=False)
+                    if all(progs.same_value(impl.collect(raw0, f"o{q}", rq), outs0[0][q]) for q, rq in enumerate(res)):
+                        suffix = "-only-with-onnxruntime-graph-optimizations"
+                except Exception:
+                    pass
+                rec["fail"].append({**base, "kind": progs.diff_kind(got, outs[0][j]) + suffix, "step": j, "op": prog["steps"][j]["op"],
                                     "cause": progs.step_cause(prog, j, S),
                                     "with_ort": str(impl.canon(outs[0][j]))[:300], "without_ort": str(impl.canon(got))[:300]})
                 break
